@@ -102,8 +102,16 @@ def corruptions(doc):
                 expect = "reject"  # the parameter set is resolved eagerly; an undefined type is a dangling reference regardless
             else:
                 expect = "reject"
+            orig = e.attrs[attr]
             e.attrs[attr] = "UNDEFINED_NAME_X"
             yield f"dangling:{tag}#{i}", expect, t
+            # names that merely resemble a defined one are just as undefined: a path-like qualification, another letter case, a trailing blank
+            # (one of them per reference, in rotation)
+            t = clone(base)
+            alt = (f"nowhere/{orig}", f"/{orig}", orig.swapcase(), orig + " ", f"{orig}/{orig}")[i % 5]
+            if alt != orig:
+                nth(t, tag, i).attrs[attr] = alt
+                yield f"dangling-lookalike:{tag}#{i}:{('qualified', 'rooted', 'other-case', 'trailing-blank', 'doubled')[i % 5]}", expect, t
     # --- duplicates and deletions
     for set_tag, members_used, change in (("ParameterTypeSet", used_types, "type"), ("ParameterSet", used_params, "param"),
                                           ("ContainerSet", used_conts, "cont")):
